@@ -82,20 +82,17 @@ func resolve(path string, query bsonkit.Doc, doc bson.D, arrayFilters bsonkit.Li
 		return nil
 	}
 
-	// verify that at least one supplied array filter binds the identifier
-	bound := false
+	// collect the array filters that bind the identifier
+	var filters bsonkit.List
 	for _, filter := range arrayFilters {
 		for _, e := range *filter {
 			if e.Key == identifier || strings.HasPrefix(e.Key, identifier+".") {
-				bound = true
+				filters = append(filters, filter)
 				break
 			}
 		}
-		if bound {
-			break
-		}
 	}
-	if !bound {
+	if len(filters) == 0 {
 		return fmt.Errorf("no array filter found for identifier %q", identifier)
 	}
 
@@ -107,9 +104,9 @@ func resolve(path string, query bsonkit.Doc, doc bson.D, arrayFilters bsonkit.Li
 
 	// handle identified positional operator "$[<identifier>]"
 	for i, item := range array {
-		// match item against provided array filters
+		// match item against the array filters of the identifier
 		matched := false
-		for _, filter := range arrayFilters {
+		for _, filter := range filters {
 			// match item
 			ok, err := Match(&bson.D{
 				bson.E{Key: identifier, Value: item},
